@@ -14,6 +14,15 @@ namespace {
 int64_t const MS = 1000000;
 int const P = 5000, Q = 5001, UNBOUND = 5999;
 
+struct DfOpt
+{
+	int v;
+	template <class P> int level(P const&) const { return IPPROTO_IP; }
+	template <class P> int name(P const&) const { return IP_MTU_DISCOVER; }
+	template <class P> void const* data(P const&) const { return &v; }
+	template <class P> std::size_t size(P const&) const { return sizeof(v); }
+};
+
 enum Kind { SEND, RECV, CLOSE, REOPEN, TAKEOVER, SETOPT, ADVANCE };
 struct Op { Kind k; int a, b, c; const char* name; };
 // SEND: a=sender(0,1) b=size code c=dst port ; RECV: a=receiver b=style c=buffer code
@@ -320,7 +329,7 @@ struct Exec
 struct UdpEngine : Engine
 {
 	std::vector<Op> menu; int D = 4; bool thorough = false;
-	std::vector<std::vector<int>> unit_prefix; uint64_t drain_units = 20;
+	std::vector<std::vector<int>> unit_prefix; uint64_t drain_units = 20, args_units = 1;
 	uint64_t units(Args const& a) override
 	{
 		thorough = a.thorough(); menu = menu_ops(false); D = thorough ? 6 : 5;
@@ -332,7 +341,7 @@ struct UdpEngine : Engine
 			if (c1.trace.size() < 2) { unit_prefix.push_back({ a0 }); continue; }
 			for (int k = 0; k < c1.trace[1].first; ++k) unit_prefix.push_back({ a0, k });
 		}
-		return unit_prefix.size() + drain_units;
+		return unit_prefix.size() + drain_units + args_units;
 	}
 	void judge(Ctx& ctx, Case const& c, Exec& e)
 	{
@@ -355,6 +364,64 @@ struct UdpEngine : Engine
 		for (auto& f : fails) add_violation(ctx, clause_of(f), c, f + " | " + tr, "drain/" + clause_of(f));
 		ctx.R.counters["drain_rounds"] += uint64_t(n);
 		ctx.end();
+	}
+	// the send_to argument rules on an idle socket: every (total size, gather layout) of a grid
+	static std::vector<size_t> layout(int shape, size_t T)
+	{
+		switch (shape) {
+			case 0: return { T };
+			case 1: return { T / 3, T - T / 3 };
+			case 2: return { T / 2, T - T / 2 };
+			case 3: return { 0, T };
+			case 4: return { T, 0 };
+			case 5: return T >= 1 ? std::vector<size_t>{ 1, T - 1 } : std::vector<size_t>{ 0, 0 };
+			case 6: return { T / 4, T / 4, T / 4, T - 3 * (T / 4) };
+			default: return { T / 8, 0, T - T / 8 - T / 5, T / 5 };
+		}
+	}
+	static void args_case(int total, int shape, bool df, std::vector<std::string>& fails, std::string& tr)
+	{
+		World w;
+		w.on_build = [](World& ww, sim::simulation&) { auto q = ww.queue(0, ms(1), 0); ww.chan = [q](ip::address, ip::address) { return World::hops_t{ q }; }; };
+		w.mtu = [](ip::address, ip::address) { return 70000; };
+		sim::simulation sim(w);
+		asio::io_context nS(sim, addr("10.0.0.1")), nR(sim, addr("10.0.1.1"));
+		ip::udp::socket s(nS), r(nR);
+		s.open(ip::udp::v4()); s.bind(ip::udp::endpoint(addr("10.0.0.1"), 4000)); s.non_blocking(true);
+		if (df) { error_code oe; s.set_option(DfOpt{ IP_PMTUDISC_DO }, oe); }
+		r.open(ip::udp::v4()); r.bind(ip::udp::endpoint(addr("10.0.1.1"), 5000));
+		std::string pl = pattern(7, total); std::vector<size_t> lay = layout(shape, size_t(total));
+		std::vector<asio::const_buffer> cb; size_t off = 0; static char const z = 0;
+		for (size_t n : lay) { cb.push_back(asio::const_buffer(n ? pl.data() + off : &z, n)); off += n; }
+		std::vector<char> rb(140000); ip::udp::endpoint from; int got = 0; error_code rec; size_t rn = 0;
+		r.async_receive_from(asio::buffer(rb), from, [&](error_code const& e2, std::size_t k2) { ++got; rec = e2; rn = k2; });
+		error_code ec; size_t ret = s.send_to(cb, ip::udp::endpoint(addr("10.0.1.1"), 5000), 0, ec);
+		std::string ls; for (size_t n : lay) ls += fmt("%zu+", n);
+		tr = fmt("send_to(%s = %d bytes%s) -> %zu %s", ls.c_str(), total, df ? ", DF" : "", ret, ecs(ec).c_str());
+		sim.run();
+		if (total == 0) { if (ecs(ec) != "invalid_argument" || ret != 0) fails.push_back("send_args: empty datagram: " + tr); if (got) fails.push_back("send_args: an empty datagram was delivered"); }
+		else if (total > 65535) { if (ecs(ec) != "message_size" || ret != 0) fails.push_back("send_args: datagram over 65535 bytes: " + tr); if (got) fails.push_back(fmt("send_args: a datagram of %d bytes was delivered (%zu bytes read)", total, rn)); }
+		else {
+			if (ec || ret != size_t(total)) fails.push_back("send_args: valid datagram on an idle socket: " + tr);
+			else if (got != 1 || rec || rn != size_t(total) || std::string(rb.data(), rn) != pl) fails.push_back(fmt("payload: %s: receiver got %d completions, %zu bytes %s, content %s", tr.c_str(), got, rn, ecs(rec).c_str(), std::string(rb.data(), rn) == pl ? "ok" : "differs"));
+		}
+		if (!got) { error_code ig; r.cancel(ig); sim.run(); }
+	}
+	static int const* arg_totals(size_t& n) { static int const T[] = { 0, 1, 2, 1472, 65534, 65535, 65536, 65537, 98304, 131070, 131071, 131072, 200000 }; n = sizeof(T) / sizeof(T[0]); return T; }
+	void args_unit(Ctx& ctx)
+	{
+		size_t nt; int const* T = arg_totals(nt);
+		for (size_t i = 0; i < nt; ++i) for (int shape = 0; shape < 8; ++shape) for (int df = 0; df < 2; ++df) {
+			if (!ctx.next_case()) continue;
+			Case c; c.set("family", "args").set("total", T[i]).set("shape", shape).set("df", df);
+			ctx.begin(c);
+			std::vector<std::string> fails; std::string tr;
+			args_case(T[i], shape, df != 0, fails, tr);
+			auto clause_of = [](std::string const& x) { return x.substr(0, x.find(':')); };
+			for (auto& f : fails) add_violation(ctx, clause_of(f), c, f, "args/" + clause_of(f));
+			ctx.R.counters["send_arg_cases"] += 1; ctx.R.transitions += 1;
+			ctx.end();
+		}
 	}
 	static void drain(int size, int buf, int n, std::vector<std::string>& fails, std::string& tr, Ctx* ctx)
 	{
@@ -385,6 +452,7 @@ struct UdpEngine : Engine
 	void run_unit(uint64_t u, Ctx& ctx) override
 	{
 		ctx.watchdog_s = 10;
+		if (u >= unit_prefix.size() + drain_units) { args_unit(ctx); return; }
 		if (u >= unit_prefix.size()) { drain_unit(u - unit_prefix.size(), ctx); return; }
 		std::vector<int> pre = unit_prefix[size_t(u)]; size_t base = pre.size();
 		++ctx.ordinal;
@@ -422,7 +490,8 @@ struct UdpEngine : Engine
 	{
 		units(a);
 		std::vector<std::string> fails; std::vector<std::string> log;
-		if (c.str("family") == "drain") { std::string tr; drain(int(c.num("size")), int(c.num("buf")), int(c.num("n")), fails, tr, nullptr); std::fprintf(stdout, "%s\n", tr.c_str()); }
+		if (c.str("family") == "args") { std::string tr; args_case(int(c.num("total")), int(c.num("shape")), c.num("df") != 0, fails, tr); std::fprintf(stdout, "%s\n", tr.c_str()); }
+		else if (c.str("family") == "drain") { std::string tr; drain(int(c.num("size")), int(c.num("buf")), int(c.num("n")), fails, tr, nullptr); std::fprintf(stdout, "%s\n", tr.c_str()); }
 		else { D = int(c.num("depth", D)); Chooser ch; ch.reset(c.ints("choices")); Exec e(menu, D, &ch, nullptr); e.run(); fails = e.fails; for (auto& l : e.log) std::fprintf(stdout, "%s\n", l.c_str()); }
 		for (auto& f : fails) std::fprintf(stdout, "VIOLATION %s\n", f.c_str());
 		std::fprintf(stdout, fails.empty() ? "=> ok\n" : "=> %zu violation(s)\n", fails.size());
